@@ -71,8 +71,28 @@ NAME_POOL = [':--foo', ':--Foo', ':--FOO', ':--bar', ':--b\\61r', ':--b\\61 r', 
              ':--\\', ':--é', '::--x', ':--x(', ':--0', ':---', ':--foo\\', 'foo', ':--\\66oo', ':--f\x00o']
 
 
+def spell_variant(ch, name):
+    """Another spelling of the same custom name (CSS escapes after the literal `:--`, letter case)."""
+    if not name.startswith(':--') or len(name) <= 3 or '\\' in name or '\x00' in name:
+        return name
+    from engine import respell
+    rest = respell.Respeller(ch, 'all', 1.0).ident(name[3:])
+    out = ':--' + rest
+    return out.upper() if ch.p(0.2) and '\\' not in out else out
+
+
 def gen_custom(ch):
     m = {}
+    if ch.p(0.4):
+        # reference graphs among the map's own names, each reference possibly spelled differently (cycles included)
+        names = [ch.pick((':--a', ':--b', ':--x-y', ':--parent', ':--z9', ':--é')) for _ in range(ch.i(1, 3))]
+        names = list(dict.fromkeys(names))
+        for n in names:
+            refs = [spell_variant(ch, ch.pick(names)) if ch.p(0.8) else ch.pick((':--zzz', 'p', 'a > b')) for _ in range(ch.i(1, 2))]
+            val = ch.pick(('{}', 'p{}', '{}, {}', ':is({})', ':not({} > a)', 'p:has({})')).replace('{}', refs[0], 1)
+            val = val.replace('{}', refs[-1])
+            m[spell_variant(ch, n) if ch.p(0.4) else n] = val
+        return m
     for _ in range(ch.i(0, 4)):
         name = ch.pick(NAME_POOL) if ch.p(0.8) else ':--' + ch.text(5, surrogates=True)
         r = ch.i(0, 9)
@@ -105,7 +125,7 @@ def gen_case(ch):
         if r == 0 or not custom:
             pat = gen_valid(ch)
         elif r == 1:
-            pat = ', '.join(k for k in custom) or 'a'
+            pat = ', '.join(spell_variant(ch, k) if ch.p(0.5) else k for k in custom) or 'a'
         else:
             pat = ch.pick(list(custom)) + ch.pick(['', ':is(a)', ' > b', ', :--foo'])
     return {'pattern': pat, 'custom': custom, 'mode': mode}
